@@ -280,6 +280,42 @@ def rule_r3(ck, prog, S):
         ck.violated("C07-R3", st, K.loc(g), "; ".join(probs))
     else:
         ck.holds("C07-R3", st, K.loc(g), "delimiter by token class; a doubled delimiter is copied once")
+    # the copy may stop early only because the DESTINATION is full: the source index runs ahead of the destination index by one
+    # for every doubled delimiter, so a test of the source index against the buffer length cuts text that still fits
+    st2 = K.site(g, "copy-limited-by-destination", 0)
+    cap = g.params[2]["name"]
+    dst = src = None
+    for n, t in C.stores(g):
+        if t.k == "ArraySubscriptExpr" and t.child(0).strip_all_casts().get("path") == g.params[1]["name"] and n.get("op") == "=":
+            r = n.child(1).strip_all_casts()
+            if r.k == "ArraySubscriptExpr":
+                dst = t.child(1).strip_all_casts().get("path")
+                src = r.child(1).strip_all_casts().get("path")
+    if not dst or not src or dst == src:
+        ck.undecided("C07-R3", st2, K.loc(g), "copy statement `buffer[i_to] = token[i_from]` not found")
+    else:
+        bad = good = None
+        loops_ = C.loops(g)
+        for b in g.blocks.values():
+            c = b.cond
+            if c is None or c.k != "BinaryOperator" or c.get("op") not in ("<", "<=", ">", ">=", "==", "!="):
+                continue
+            if not any(b.id in bd for h, bd in loops_):
+                continue
+            names = {x.get("path") for x in c.walk() if x.k == "DeclRefExpr"}
+            if cap in names:
+                if src in names and dst not in names:
+                    bad = c
+                elif dst in names:
+                    good = c
+        if bad is not None:
+            ck.violated("C07-R3", st2, K.loc(g, bad),
+                        "the copy stops on `%s`, a test of the SOURCE index: every doubled delimiter advances it twice, so a text that "
+                        "fits is cut (`\"a\"\"b\"\"c\"\"d\"` into 8 bytes yields `a\"b\"c`, 5 of 7 characters)" % bad.src)
+        elif good is not None:
+            ck.holds("C07-R3", st2, K.loc(g, good), "the copy stops on `%s` (destination index)" % good.src)
+        else:
+            ck.undecided("C07-R3", st2, K.loc(g), "no test against the buffer length inside the copy loop")
     ck.analysed(g)
 
 
